@@ -112,4 +112,12 @@ theorem Node.core_fields {a b : Node} (h : a.core = b.core) :
   obtain ⟨h1, h2, _, h4, h5, _, _, _, h9, _, _, _, h13, h14, h15, h16⟩ := h
   exact ⟨h1, h2, h4, h5, h9, h13, h14, h15, h16⟩
 
+theorem Node.core_life {a b : Node} (h : a.core = b.core) :
+    a.alive = b.alive ∧ a.paused = b.paused ∧ a.done = b.done := by
+  cases a; cases b
+  simp only [Node.core, Node.mk.injEq] at h
+  simp only
+  obtain ⟨_, _, _, _, _, _, _, _, _, h10, h11, h12, _, _, _, _⟩ := h
+  exact ⟨h11, h10, h12⟩
+
 end Leptos.Reactive
